@@ -109,8 +109,14 @@ def run(cx):
     if h:
         calls = [shorten(h.term_call(t, 0)) for bi, c, t in prog.calls_of(h)]
         fed = [c for c in calls if re.search(r'hash\(|write|for_each', c)]
-        want = ['impls::hash(arg1.is_fqdn,arg2)', 'Iterator::for_each(Iterator::flatten(Name::iter(arg1)),closure:<Name as Hash>::hash::{closure@for_each#0})']
-        cx.check('C04.T1', fed == want, h.path, 'calls', 'hash-inputs=is_fqdn+every-label-octet', str(fed))
+        # what is fed to the hasher: the fqdn flag, and per label its LENGTH and its octets - nothing else (no label_ends, no case).
+        # The length is what keeps `ab.c.` and `a.bc.` apart where a hash value stands in for the name (validation cache key, F25).
+        LBL = r"<LabelIter<'a> as Iterator>::next\(Name::iter\(arg1\)\)@Some\.0"
+        want = [r'^impls::hash\(arg1\.is_fqdn,arg2\)$',
+                r'^Hasher::write_u8\(arg2,cast<u8>\(slice::len\(' + LBL + r'\)\)\)$',
+                r"^<Iter<'a;T> as Iterator>::for_each\(slice::iter\(" + LBL + r'\),closure:<Name as Hash>::hash::\{closure@for_each#0\}\)$']
+        ok = len(fed) == len(want) and all(re.search(w, f_) for w, f_ in zip(want, fed))
+        cx.check('C04.T1', ok, h.path, 'calls', 'hash-inputs=is_fqdn+per-label(length,octets)', str(fed))
     hc = cx.fn('C04.T1', '<hickory_proto::rr::domain::name::Name as core::hash::Hash>::hash::{closure@for_each#0}')
     if hc:
         calls = [shorten(hc.term_call(t, 0)) for bi, c, t in prog.calls_of(hc)]
